@@ -53,6 +53,15 @@ def gen_cases(tier, seed):
     yield C(w="tensor", shape=[40, 45, 40], fam="bits")        # > 1 MB of text: larger than any text-I/O buffer
     yield C(w="ktensor", shape=[300, 2, 150], fam="normal", R=60)
     yield C(w="sptensor", shape=[50, 60, 70], fam="bits", pattern="big", base=1)
+    yield C(w="sptensor", shape=[50, 60, 70], fam="normal", pattern="big2", base=1)        # more than 2^17 stored entries
+    # many modes (the order line of the file has two digits)
+    for N in (9, 10, 11, 12):
+        shp = [int(x) for x in rng.integers(1, 3, size=N)]
+        for fam in ("normal", "bits"):
+            yield C(w="tensor", shape=shp, fam=fam)
+            yield C(w="sptensor", shape=shp, fam=fam, pattern="some", base=1)
+            yield C(w="sptensor", shape=shp, fam=fam, pattern="some", base=0)
+            yield C(w="ktensor", shape=shp, fam=fam, R=2)
     # index spaces whose subscripts no double represents exactly (hashed / id-like modes): subscripts are integers end to end
     for shp in ([2 ** 60, 3, 2 ** 60 - 1], [2 ** 62, 2], [5, 2 ** 53 + 7], [2 ** 31, 2 ** 31, 2]):
         for base in (1, 0):
@@ -198,8 +207,8 @@ def _run(case, ctx, rng, shape, path):
             subs = np.unique(subs, axis=0)
             subs = subs[rng.permutation(subs.shape[0])]
             k = subs.shape[0]
-        elif pat == "big":
-            k = 60000
+        elif pat in ("big", "big2"):
+            k = 70000 if pat == "big" else 140000
             lin = rng.choice(n, size=k, replace=False)
             subs = np.stack(np.unravel_index(lin, shape), axis=1)
         else:
